@@ -93,10 +93,15 @@ class RecorderRoles(object):
         counters = [f for f, v in self.init_values.items() if isinstance(v, ast.Call) and isinstance(v.func, ast.Name) and v.func.id == 'Counter']
         if len(counters) > 1:
             # several counting fields: the output ordinal is the one incremented and read back as the ordinal handed to the output recorder
-            # (`self.<f>[alias] += 1; n = self.<f>[alias]`) - a counter only read through a helper is something else
+            # inside the per-call wrapper of a decorator (a function taking *args, **kwargs) - a counter kept by a helper method is something else
+            per_call = [fn_ for fn_ in ast.walk(c.node) if isinstance(fn_, ast.FunctionDef) and fn_.args.vararg is not None and fn_.args.kwarg is not None]
             ordinal = [f for f in counters if any(
-                isinstance(n, ast.AugAssign) and isinstance(n.target, ast.Subscript) and _self_attr(n.target.value) == f for n in ast.walk(c.node)) and
-                any(isinstance(n, ast.Assign) and isinstance(n.value, ast.Subscript) and _self_attr(n.value.value) == f for n in ast.walk(c.node))]
+                isinstance(n, ast.AugAssign) and isinstance(n.target, ast.Subscript) and _self_attr(n.target.value) == f for fn_ in per_call for n in ast.walk(fn_))]
+            if len(ordinal) != 1:
+                # ... and the one a replay restarts when it ends
+                in_play = [f for f in (ordinal or counters) if any(isinstance(n, ast.Assign) and any(_self_attr(t) == f for t in n.targets)
+                                                                   for n in ast.walk(self.play.node))]
+                ordinal = in_play if len(in_play) == 1 else ordinal
             if len(ordinal) == 1:
                 counters = ordinal
         self.counter = self._one('invocation-counter-field', counters)
